@@ -122,7 +122,9 @@ package collection
 //@ func (tw *TimingWheel) removeTask
 //@   property C12
 //@   requires wheelOK(tw) && timersOK(tw)
-//@   ensures  timersOK(tw)
+//@   ensures  timersOK(tw) && wheelOK(tw)
+//@   ensures  implies(old(itemsOK(tw)), itemsOK(tw))
+//@   ensures  implies(old(liveOK(tw)), liveOK(tw))
 //@   ensures  !smHas(tw.timers, key)
 //@   ensures  implies(old(smHas(tw.timers, key)), old(pe(tw, key)).item.removed)
 //@   ensures  forall(k.(any), implies(k != key, smHas(tw.timers, k) == old(smHas(tw.timers, k)) && pe(tw, k) == old(pe(tw, k))))
@@ -138,6 +140,9 @@ package collection
 //@   ensures  forall(k.(any), smHas(tw.timers, k) == old(smHas(tw.timers, k)))
 //@   ensures  implies(task.delay >= tw.interval && smHas(tw.timers, task.key), rem(tw, pe(tw, task.key).item) == int(task.delay / tw.interval))
 //@   ensures  implies(task.delay >= tw.interval && smHas(tw.timers, task.key), itemOK(tw, pe(tw, task.key).item) && inWheel(tw, pe(tw, task.key).item))
+// the wheel-wide invariants survive a move (every pending entry stays well-formed and stays the one its key is booked under)
+//@   ensures  implies(old(itemsOK(tw)), itemsOK(tw))
+//@   ensures  implies(old(liveOK(tw)), liveOK(tw))
 // a delay below one tick fires the callback at once on its own goroutine and leaves the wheel as it is
 //@   ensures  implies(task.delay < tw.interval && smHas(tw.timers, task.key), pe(tw, task.key).item == old(pe(tw, task.key).item) && pe(tw, task.key).pos == old(pe(tw, task.key).pos) &&
 //@              pe(tw, task.key).item.removed == old(pe(tw, task.key).item.removed) && pe(tw, task.key).item.circle == old(pe(tw, task.key).item.circle) && pe(tw, task.key).item.diff == old(pe(tw, task.key).item.diff) && listOf[pe(tw, task.key).item] == old(listOf[pe(tw, task.key).item]))
@@ -162,6 +167,8 @@ package collection
 //@   ensures  itemOK(tw, pe(tw, task.key).item) && inWheel(tw, pe(tw, task.key).item)
 //@   ensures  pe(tw, task.key).item.value == task.value && pe(tw, task.key).item.key == task.key
 //@   ensures  implies(old(smHas(tw.timers, task.key)) && pe(tw, task.key).item != old(pe(tw, task.key).item), old(pe(tw, task.key).item).removed)
+//@   ensures  implies(old(itemsOK(tw)), itemsOK(tw))
+//@   ensures  implies(old(liveOK(tw)), liveOK(tw))
 //@   ensures  forall(x.(*timingEntry), implies(old(allocated(x)) && x != task && !(old(smHas(tw.timers, task.key)) && x == old(pe(tw, task.key).item)),
 //@              x.removed == old(x.removed) && x.circle == old(x.circle) && x.diff == old(x.diff) && listOf[x] == old(listOf[x]) && x.value == old(x.value)))
 //@   modifies smH[tw.timers], smV[tw.timers], smN[tw.timers], positionEntry.item, positionEntry.pos,
